@@ -39,6 +39,10 @@ Coverage-gap streams (the documented entry points and options the streams above 
    transform_store().graph, the full profile, rsmi_to_graph(drop_non_aam=False / node_attrs=None); the ITS from construct /
    ITSGraph with options / rsmi_to_its; the reaction SMILES from graph_to_rsmi(r, p) (no ITS handed over), graph_to_rsmi(r, p, its)
    and their options; stream (v) on graph_to_rsmi and on an ITS built with store=True;
+ * `padding` (rare-but-legal inputs): genuine mapped atoms of balanced reactions whose labels coincide with a default / padding
+   value of the code - wildcard atoms `*`, neutral, without hydrogens, without a bond on one side or on both (what ITSConstruction
+   pads a missing atom with), bare neutral atoms - in the centre, as spectators, in corpus reactions; reaction level (all gates,
+   options, routes, repeat), graph level (model with the option grid), stream (v);
  * `explicit-its`: rsmi_to_its(rsmi, explicit_hydrogen=True) must be the ITS of the same reaction with hydrogen counts written as
    hydrogen atoms (specification evaluated in the harness from the input graphs); runs last.
 
@@ -264,6 +268,25 @@ def variant(rsmi, kind, rnd):
         return free_h_form(rsmi, rnd)
     if kind == "radical":
         return radicalize(rsmi, rnd)
+    if kind == "wild_spectator":
+        # unchanged, fully mapped spectators whose labels coincide with the code's own default / padding values: wildcard atoms
+        # ('*', neutral / charged / with hydrogens / bonded / several), bare neutral atoms without hydrogens
+        import re
+        top = max([int(x) for x in re.findall(r":(\d+)\]", rsmi)] or [0])
+        extra = []
+        for _ in range(rnd.choice([1, 1, 2])):
+            extra.append(rnd.choice(WILD_SPECIES).format(a=top + 1, b=top + 2, c=top + 3, d=top + 4))
+            top += 4
+        side = ".".join(extra)
+        if rnd.random() < 0.5:
+            return l + "." + side + ">>" + r + "." + side
+        return side + "." + l + ">>" + side + "." + r
+    if kind == "wildcardize":
+        return wildcardize(rsmi, rnd)
+    if kind == "cut":
+        return cut_form(rsmi, rnd, wild=False)
+    if kind == "cut_wild":
+        return cut_form(rsmi, rnd, wild=True)
     raise ValueError(kind)
 
 
@@ -404,6 +427,161 @@ def radicalize(rsmi, rnd):
         return _HTOK.sub(f, s)
 
     return dec(l) + ">>" + dec(r)
+
+
+# ------------------------------------------------------------------ atoms that look like the code's own default / padding values
+# ITSConstruction pads an atom that one side lacks with ('*', False, 0, 0, ['', '']); GraphToMol / MolToGraph have their own
+# defaults (charge 0, hcount 0, aromatic False).  A GENUINE mapped atom of a balanced reaction may carry exactly these values:
+# a wildcard atom `*` (generic substituent / leaving group / base), neutral, without hydrogens, and without any bond on one side
+# or on both; a bare neutral atom of a real element.  None of the bundled corpora has a neutral unbonded wildcard (the mechanism
+# set only has [*-:n] and [*:n][H:m]).  Hand-written balanced, fully mapped steps, every shape: neutral / charged / with
+# hydrogens, bonded / unbonded on one side / unbonded on both, in the centre / spectator.
+WILD_STEPS = [
+    # wildcard leaves / arrives as a neutral, unbonded species (homolysis, recombination, heterolysis of an onium)
+    "[CH3:1][*:2]>>[CH3:1].[*:2]",
+    "[CH3:1].[*:2]>>[CH3:1][*:2]",
+    "[CH3:1][C:2]([CH3:3])([CH3:4])[*+:5]>>[CH3:1][C+:2]([CH3:3])[CH3:4].[*:5]",
+    "[*:1][*:2]>>[*:1].[*:2]",
+    "[*:1].[*:2]>>[*:1]=[*:2]",
+    "[*:1].[Cl:2][Cl:3]>>[*:1][Cl:2].[Cl:3]",
+    "[*:1][H:2]>>[*:1].[H:2]",
+    "[*:1][H:2].[Cl:3]>>[*:1].[H:2][Cl:3]",
+    "[*:1][OH:2].[CH3:3]>>[*:1].[CH3:3][OH:2]",
+    "[CH3:1][*:2].[*:3]>>[CH3:1][*:3].[*:2]",
+    "[*:1][c:2]1[cH:3][cH:4][cH:5][cH:6][cH:7]1.[Br:8][Br:9]>>[*:1].[Br:8][c:2]1[cH:3][cH:4][cH:5][cH:6][cH:7]1.[Br:9]",
+    "[*:1][CH2:2][CH2:3][*:4]>>[*:1].[CH2:2]=[CH2:3].[*:4]",
+    "[*:1]=[O:2]>>[*:1].[O:2]",
+    "[CH3:1][C:2](=[O:3])[O:4][*:5]>>[CH3:1][C:2](=[O:3])[O:4].[*:5]",
+    "[CH3:1][N+:2]([CH3:3])([CH3:4])[*:5]>>[CH3:1][N+:2]([CH3:3])[CH3:4].[*:5]",
+    # wildcard that never has a bond: spectator, or only its charge / hydrogen count changes
+    "[*:1].[CH3:2][Cl:3]>>[*:1].[CH3+:2].[Cl-:3]",
+    "[*:1].[*:2].[CH3:3][CH3:4]>>[*:1].[*:2].[CH3:3].[CH3:4]",
+    "[*H:1].[CH3:2]>>[*:1].[CH4:2]",
+    "[*:1].[Fe+3:2]>>[*+:1].[Fe+2:2]",
+    "[*-:1].[Fe+3:2]>>[*:1].[Fe+2:2]",
+    "[*:1].[H:2][H:3]>>[*:1].[H:2].[H:3]",
+    # charged / bonded wildcards (the shapes the mechanism corpus has, and their neighbours)
+    "[CH2:4]([H:7])[CH:5]=[O:6].[*-:9]>>[CH2-:4][CH:5]=[O:6].[*:9][H:7]",
+    "[CH3:1][*:2].[OH-:3]>>[CH3:1][OH:3].[*-:2]",
+    "[*:1][H:2].[OH-:3]>>[*-:1].[H:2][OH:3]",
+    "[*+:1].[Cl-:2]>>[*:1][Cl:2]",
+    "[*-:1].[*+:2]>>[*:1][*:2]",
+    "[*:1]=[O:2].[H:3][H:4]>>[*:1]([H:3])[O:2][H:4]",
+    "[*:1][CH:2]=[O:3].[H-:4]>>[*:1][CH:2]([O-:3])[H:4]",
+    "[*:1][C:2](=[O:3])[Cl:4].[NH3:5]>>[*:1][C:2](=[O:3])[NH2:5].[ClH:4]",
+    "[*H:1][CH3:2].[OH:3]>>[*:1][CH3:2].[OH2:3]",
+    # bare neutral atoms of real elements (hcount 0, charge 0, not aromatic) that are unbonded on one side or on both
+    "[C:1].[C:2]>>[C:1]#[C:2]",
+    "[O:1].[C:2]>>[C-:2]#[O+:1]",
+    "[Ar:1].[CH3:2][CH3:3]>>[Ar:1].[CH3:2].[CH3:3]",
+    "[Zn:1].[Cl:2][Cl:3]>>[Cl:2][Zn:1][Cl:3]",
+    "[Mg:1].[CH3:2][Br:3]>>[CH3:2][Mg:1][Br:3]",
+    "[Hg:1].[Cl:2][Cl:3]>>[Cl:2][Hg:1][Cl:3]",
+    "[He:1].[H:2][H:3]>>[He:1].[H:2].[H:3]",
+    "[Li:1].[H:2][H:3].[Li:4]>>[Li:1][H:2].[H:3][Li:4]",
+    "[S:1].[Fe:2]>>[Fe:2]=[S:1]",
+    "[N:1]#[N:2]>>[N:1].[N:2]",
+    "[Na:1].[Na:2].[Cl:3][Cl:4]>>[Na+:1].[Na+:2].[Cl-:3].[Cl-:4]",
+    "[Pd:1].[CH3:2][I:3]>>[CH3:2][Pd:1][I:3]",
+]
+
+WILD_SPECIES = [
+    "[*:{a}]", "[*:{a}]", "[*:{a}]", "[*+:{a}]", "[*-:{a}]", "[*H:{a}]", "[*H2:{a}]", "[*:{a}].[*:{b}]", "[*:{a}][*:{b}]", "[*:{a}]#[*:{b}]",
+    "[*:{a}][H:{b}]", "[*:{a}]([H:{b}])[H:{c}]", "[*:{a}].[H:{b}]", "[*:{a}].[H+:{b}]", "[*:{a}][CH3:{b}]", "[*:{a}]=[O:{b}]", "[*:{a}][OH:{b}]",
+    "[*:{a}][Cl:{b}]", "[*-:{a}].[Na+:{b}]", "[*:{a}][*+:{b}]([*:{c}])[*:{d}]", "[*:{a}].[*+:{b}].[*H:{c}]",
+    "[Ar:{a}]", "[C:{a}]", "[Hg:{a}]", "[He:{a}].[H:{b}]", "[Zn:{a}]", "[S:{a}]",
+]
+
+
+def _atom_by_map(mol):
+    return {a.GetAtomMapNum(): a for a in mol.GetAtoms() if a.GetAtomMapNum()}
+
+
+def wildcardize(rsmi, rnd):
+    """Replace the element of one or two mapped, non-aromatic atoms by the wildcard `*` on BOTH sides (a generic group in place
+    of a real atom; charge and hydrogen count stay, or - one time in three - the hydrogens are dropped on both sides as well).
+    The reaction stays balanced and fully mapped."""
+    from rdkit import Chem
+    sides = rsmi.split(">>")
+    if len(sides) != 2:
+        return None
+    mols = [Chem.MolFromSmiles(s, sanitize=False) for s in sides]
+    if None in mols:
+        return None
+    am = [_atom_by_map(m) for m in mols]
+    ok = sorted(m for m in am[0] if m in am[1] and not any(x[m].GetIsAromatic() or x[m].GetChiralTag() != Chem.ChiralType.CHI_UNSPECIFIED
+                                                           or x[m].GetIsotope() for x in am))
+    if not ok:
+        return None
+    # atoms that have no bond on one side first (they are the ones that look like padding), then any
+    loose = [m for m in ok if am[0][m].GetDegree() == 0 or am[1][m].GetDegree() == 0]
+    pick = set()
+    if loose and rnd.random() < 0.6:
+        pick.add(rnd.choice(loose))
+    while len(pick) < min(len(ok), rnd.choice([1, 1, 2])):
+        pick.add(rnd.choice(ok))
+    drop_h = rnd.random() < 0.34
+    for m in sorted(pick):
+        for x in am:
+            x[m].SetAtomicNum(0)
+            if drop_h:
+                x[m].SetNumExplicitHs(0)
+                x[m].SetNoImplicit(True)
+    return ">>".join(Chem.MolToSmiles(m, canonical=False) for m in mols)
+
+
+def cut_form(rsmi, rnd, wild):
+    """Cut, on ONE side, the only bond of a mapped terminal atom (any element, any bond order): the atom is then an unbonded
+    species on that side only - homolytically (both ends neutral) or heterolytically (+ / -) - and its old bond exists on the
+    other side only, so it belongs to the reaction centre.  With `wild` that atom is a wildcard `*` on both sides (a generic
+    leaving / attacking group), half of the time without hydrogens."""
+    from rdkit import Chem
+    sides = rsmi.split(">>")
+    if len(sides) != 2:
+        return None
+    mols = [Chem.RWMol(m) if m is not None else None for m in (Chem.MolFromSmiles(s, sanitize=False) for s in sides)]
+    if None in mols:
+        return None
+    k = rnd.choice([0, 1, 1])
+    mode = rnd.choice(["radical", "radical", "radical", "cation", "anion"])
+    other = _atom_by_map(mols[1 - k])
+    cands = sorted((a.GetAtomMapNum(), a.GetIdx(), a.GetNeighbors()[0].GetIdx()) for a in mols[k].GetAtoms()
+                   if a.GetAtomMapNum() and a.GetDegree() == 1 and not a.GetIsAromatic() and not a.GetNeighbors()[0].GetIsAromatic()
+                   and a.GetAtomMapNum() in other and not other[a.GetAtomMapNum()].GetIsAromatic()
+                   and not a.GetIsotope() and a.GetChiralTag() == Chem.ChiralType.CHI_UNSPECIFIED)
+    if not cands:
+        return None
+    m, a, x = rnd.choice(cands)
+    mols[k].RemoveBond(a, x)
+    dq = {"radical": 0, "cation": 1, "anion": -1}[mode]
+    mols[k].GetAtomWithIdx(a).SetFormalCharge(mols[k].GetAtomWithIdx(a).GetFormalCharge() + dq)
+    mols[k].GetAtomWithIdx(x).SetFormalCharge(mols[k].GetAtomWithIdx(x).GetFormalCharge() - dq)
+    if wild:
+        drop_h = rnd.random() < 0.5
+        for mol in mols:
+            at = _atom_by_map(mol)[m]
+            at.SetAtomicNum(0)
+            if drop_h:
+                at.SetNumExplicitHs(0)
+                at.SetNoImplicit(True)
+    return ">>".join(Chem.MolToSmiles(mol, canonical=False) for mol in mols)
+
+
+def padding_shapes(r, p):
+    """The shapes of default-like atoms a balanced reaction / pair has (for the recorded input distribution)."""
+    out = set()
+    for n in r.nodes:
+        for g, o in ((r, p), (p, r)):
+            if n not in g or n not in o:
+                continue
+            d = g.nodes[n]
+            dflt = d.get("aromatic") is False and d.get("hcount") == 0 and d.get("charge") == 0
+            where = ("unbonded-on-both-sides" if g.degree(n) == 0 and o.degree(n) == 0 else "unbonded-on-one-side-only" if g.degree(n) == 0 else "bonded")
+            if d.get("element") == "*":
+                out.add("wildcard:" + ("neutral-no-hydrogens" if dflt else "charged-or-with-hydrogens") + ":" + where)
+            elif dflt and g.degree(n) == 0:
+                out.add("bare-neutral-atom:" + where)
+    return out
 
 
 def reaction_graphs(rsmi):
@@ -550,6 +728,23 @@ def unmapped_side(smi):
         a.SetAtomMapNum(0)
     try:
         Chem.SanitizeMol(m)
+        # RDKit's RemoveHs leaves a hydrogen ATOM on a wildcard neighbour in place ('[H]*[H]' stays, while '[H]C[H]' becomes
+        # '[CH2]'); `*[H]` and `[*H]` are the same molecule, so such hydrogens are turned into the wildcard's hydrogen count here,
+        # exactly as RemoveHs does for every other neighbour (neutral, no isotope, one single bond)
+        rw = Chem.RWMol(m)
+        drop = []
+        for a in rw.GetAtoms():
+            if a.GetAtomicNum() == 1 and a.GetDegree() == 1 and a.GetFormalCharge() == 0 and not a.GetIsotope():
+                nb = a.GetNeighbors()[0]
+                if nb.GetAtomicNum() == 0 and rw.GetBondBetweenAtoms(a.GetIdx(), nb.GetIdx()).GetBondType() == Chem.BondType.SINGLE:
+                    nb.SetNumExplicitHs(nb.GetNumExplicitHs() + 1)
+                    nb.SetNoImplicit(True)
+                    drop.append(a.GetIdx())
+        for i in sorted(drop, reverse=True):
+            rw.RemoveAtom(i)
+        if drop:
+            m = rw.GetMol()
+            Chem.SanitizeMol(m)
         m = Chem.RemoveHs(m)
         Chem.RemoveStereochemistry(m)  # stereo descriptors are not among the ITS labels C01 lists
         return Chem.MolToSmiles(m)
@@ -1360,6 +1555,189 @@ def radical_stream(ctx):
     return cases
 
 
+# ------------------------------------------------------------------ stream `padding`: genuine atoms that look like default / padding values
+PAD_ELEMS = ["*", "*", "*", "C", "N", "O", "H", "Cl", "He"]
+
+
+def padding_pair(rnd, nmax=7):
+    """Balanced synthetic pair in which most atoms carry the code's default values (element '*' or a real one, aromatic False,
+    hcount 0, charge 0) and some atoms lose ALL their bonds on one side (or never had one): G = forest with 0-2 ring closures,
+    H = G with 1-2 atoms isolated / attached + at most one charge or hydrogen-count edit; sides swapped half of the time."""
+    n = rnd.randint(1, nmax)
+    ids = rnd.sample(range(1, 3 * n + 2), n) if rnd.random() < 0.5 else list(range(1, n + 1))
+    lab = {}
+    for i in ids:
+        e = rnd.choice(PAD_ELEMS)
+        lab[i] = (e, False, 0 if e == "H" or rnd.random() < 0.75 else rnd.choice([1, 2]), 0 if rnd.random() < 0.75 else rnd.choice([1, -1]))
+    bonds = {}
+    for k in range(1, n):
+        if rnd.random() < 0.7:
+            bonds[(ids[rnd.randrange(k)], ids[k])] = rnd.choice([1.0, 1.0, 1.0, 2.0, 3.0])
+    for _ in range(rnd.randint(0, n // 3)):
+        a, b = rnd.sample(ids, 2)
+        if (a, b) not in bonds and (b, a) not in bonds:
+            bonds[(a, b)] = rnd.choice([1.0, 2.0])
+    lab2, bonds2, tags = dict(lab), dict(bonds), []
+    for _ in range(rnd.choice([1, 1, 2])):
+        x = rnd.choice(ids)
+        mine = [k for k in bonds2 if x in k]
+        if mine and rnd.random() < 0.75:
+            for k in mine:
+                del bonds2[k]
+            tags.append("isolate")
+        elif n > 1:
+            y = rnd.choice([i for i in ids if i != x])
+            if (x, y) not in bonds2 and (y, x) not in bonds2:
+                bonds2[(x, y)] = rnd.choice([1.0, 1.0, 2.0])
+                tags.append("attach")
+    c = rnd.random()
+    if c < 0.2:
+        x = rnd.choice(ids)
+        e, ar, h, ch = lab2[x]
+        lab2[x] = (e, ar, h, ch + rnd.choice([1, -1]))
+        tags.append("charge")
+    elif c < 0.3:
+        x = rnd.choice(ids)
+        e, ar, h, ch = lab2[x]
+        if e != "H":
+            lab2[x] = (e, ar, h + 1, ch)
+            tags.append("hcount")
+    G, H = mk_mol(ids, lab, bonds), mk_mol(ids[::-1] if rnd.random() < 0.3 else ids, lab2, bonds2)
+    if rnd.random() < 0.5:
+        G, H = H, G
+        tags.append("swapped")
+    return G, H, tags
+
+
+def default_valued_pairs(n):
+    """All (G, H) on the shared node set {1..n} whose atoms ALL carry default values (aromatic False, hcount 0, charge 0) and an
+    element from {'*', 'C'}; every unordered pair of nodes with (order_G, order_H) in {0, 1, 2}^2."""
+    ids = list(range(1, n + 1))
+    pairs = list(itertools.combinations(ids, 2))
+    for elems in itertools.product("*C", repeat=n):
+        lab = {i: (elems[i - 1], False, 0, 0) for i in ids}
+        for orders in itertools.product(range(9), repeat=len(pairs)):
+            bg = {pr: float(o // 3) for pr, o in zip(pairs, orders) if o // 3}
+            bh = {pr: float(o % 3) for pr, o in zip(pairs, orders) if o % 3}
+            yield mk_mol(ids, lab, bg), mk_mol(ids, lab, bh)
+
+
+def reader_cases(ctx, recs, tag):
+    """Hand-written steps ARE balanced and fully mapped (every atom written in brackets with its own map number): the reader must
+    return, per side, exactly the atoms written there - decided here from the text, not by the code under test, so that a reader
+    that loses a default-looking atom on both sides cannot move the reaction out of the precondition unnoticed."""
+    from synkit.IO.chem_converter import rsmi_to_graph
+    for rec in recs:
+        l, r_ = rec["rsmi"].split(">>")
+        want = [sorted(int(x) for x in re.findall(r":(\d+)\]", s)) for s in (l, r_)]
+        try:
+            g, h = rsmi_to_graph(rec["rsmi"])
+            got = [None if x is None else sorted(x.nodes) for x in (g, h)]
+        except Exception as e:
+            got = type(e).__name__
+        ctx.case(["reader", rec["rsmi"]], False)
+        ctx.count(f"{tag}:reader-keeps-every-written-atom:checked")
+        if got != want:
+            ctx.violation("rsmi_to_graph does not return exactly the mapped atoms written on each side of a balanced, fully mapped reaction",
+                          {"stream": tag, "gate": "reader", "src": rec["src"], "idx": rec["idx"], "variant": "identity", "rsmi": rec["rsmi"]},
+                          {"atoms_written": want, "atoms_read": got})
+            if len(ctx.violations) >= 3:
+                return
+
+
+def padding_stream(ctx):
+    """Atoms whose labels coincide with a default / padding value of the code (element '*', charge 0, hcount 0, aromatic False,
+    no bond on one side or on both) as GENUINE mapped atoms of balanced reactions - hand-written steps, wildcard / bare-atom
+    spectators, corpus and radical steps with atoms turned into wildcards, terminal atoms cut loose on one side - through all
+    gates of `reaction_cases`, the writer options, the other routes, a shuffled repeat; the same at graph level against the
+    model (construct / decompose with the option grid).  Returns cases for stream (v)."""
+    recs = load_reactions()
+    q = ctx.quick
+    tag = "padding"
+    hand = [{"src": "default-like-steps", "idx": i, "rsmi": x} for i, x in enumerate(WILD_STEPS)]
+    rad = [{"src": "radical-ionic-steps", "idx": i, "rsmi": x} for i, x in enumerate(RADICAL_IONIC_STEPS)]
+
+    def some(pop, n, nt=None):
+        n = n if q else nt
+        return pop if n is None else ctx.rnd.sample(pop, min(n, len(pop)))
+
+    reader_cases(ctx, hand + rad, tag)
+    if ctx.violations:
+        return [], []
+    items = []
+    for kind in ("identity", "reverse"):
+        items += _variants_of(ctx, tag, hand, kind)
+    for kind in ("renumber_sparse", "shuffle", "reroot", "wild_spectator", "spectator_h", "free_species", "wildcardize", "cut_wild"):
+        items += _variants_of(ctx, tag, some(hand, 12), kind, 1 if q else 3)
+    items += _variants_of(ctx, tag, some(rad, 30), "wildcardize", 1 if q else 4)
+    items += _variants_of(ctx, tag, some(rad, 15), "wild_spectator", 1 if q else 2)
+    for kind, n in (("wild_spectator", 20), ("wildcardize", 20), ("cut", 20), ("cut_wild", 30)):
+        items += _variants_of(ctx, tag, some(recs, n, 250), kind)
+    for src, idx, kind, v in _variants_of(ctx, tag, some(recs, 12, 120), "cut_wild"):
+        try:
+            w = variant(variant(v, "wild_spectator", ctx.rnd), "reverse", ctx.rnd)
+        except Exception:
+            continue
+        items.append((src, idx, "cut_wild+wild_spectator+reverse", w))
+    for it in items:
+        ctx.count(f"{tag}:generated:{it[2]}")
+        r, p, why = reaction_graphs(it[3])
+        if not why:
+            for s in padding_shapes(r, p):
+                ctx.count(f"{tag}:shape:{s}")
+    reaction_cases(ctx, items, tag)
+    if ctx.violations:
+        return [], []
+
+    base = [(r["src"], r["idx"], "identity", r["rsmi"]) for r in hand]
+    for opts in ({"explicit_hydrogen": True}, {"sanitize": False}):
+        its_ = ctx.rnd.sample(base, 20 if q else len(base)) + ctx.rnd.sample(items, min(len(items), 25 if q else 400))
+        reaction_cases(ctx, its_, tag + ":" + ",".join(f"{k}={v}" for k, v in sorted(opts.items())), opts=opts)
+        if ctx.violations:
+            return [], []
+    routes = reaction_routes()
+    routed = [it[:4] + (ctx.rnd.choice(routes),) for it in ctx.rnd.sample(base, 20 if q else len(base))
+              + ctx.rnd.sample(items, min(len(items), 25 if q else 500))]
+    reaction_cases(ctx, routed, tag + ":route")
+    if ctx.violations:
+        return [], []
+    again = ctx.rnd.sample(base, 15 if q else len(base)) + ctx.rnd.sample(items, min(len(items), 25 if q else 300))
+    ctx.rnd.shuffle(again)
+    reaction_cases(ctx, again, tag + ":repeat")
+    if ctx.violations:
+        return [], []
+
+    # graph level: construct / decompose against the model with the option grid, decomposition == input
+    grid = how_grid()
+    pairs = [(G, H, {"n": n, "family": "default-valued"}) for n in (1, 2) for G, H in default_valued_pairs(n)]
+    all3 = list(default_valued_pairs(3))
+    pairs += [(G, H, {"n": 3, "family": "default-valued"}) for G, H in (ctx.rnd.sample(all3, 150) if q else all3)]
+    for _ in range(250 if q else 4000):
+        G, H, tags = padding_pair(ctx.rnd)
+        pairs.append((G, H, {"edits": tags}))
+    gc = []
+    for G, H, meta in pairs:
+        for s in padding_shapes(G, H):
+            ctx.count(f"{tag}:graph:shape:{s}")
+        gc.append((G, H, dict(meta, its_via=ctx.rnd.choice(grid)) if ctx.rnd.random() < 0.5 else meta))
+    graph_cases(ctx, gc, tag + ":graph", lossless=True)
+    if ctx.violations:
+        return [], []
+
+    vroutes = [None, None, {"writer": "graph_to_rsmi(r,p)"}, {"writer": "graph_to_rsmi(r,p,its)"}, {"its_via": {"entry": "construct"}}]
+    cases = []
+    for src, idx, kind, v in base + ctx.rnd.sample(items, min(len(items), 60 if q else 1000)):
+        r, p, why = reaction_graphs(v)
+        if why:
+            continue
+        cases.append((r, p, {"src": src, "idx": idx, "variant": kind, "rsmi": v}))
+    gcases = []
+    for G, H, meta in (ctx.rnd.sample(pairs, 250) if q else pairs):
+        rt = ctx.rnd.choice(vroutes)
+        gcases.append((G, H, dict(meta, route=rt) if rt else meta))
+    return cases, gcases
+
+
 # ------------------------------------------------------------------ coverage-gap streams: the other documented entry points and options
 def how_grid():
     """Every (entry, ignore_aromaticity, balance_its, store) combination; an option left out takes the entry's own default
@@ -1713,6 +2091,21 @@ def run(ctx):
                     "thorough: 58 + 120 + 40 + 40) in a random form of {identity x2, reverse, sparse renumbering, explicit-hydrogen spectators, "
                     "shuffle}; graph_to_rsmi(r,p) with explicit_hydrogen=True and with sanitize=False on 12+8 (58+100) reactions; stream (v) on 80 "
                     "(1200) of these reactions + 120 (1500) random pairs x a random one of 4 routes + all pairs n<=2 x 4 routes. "
+                    "stream `padding` (atoms that look like the code's default / padding values as genuine atoms; all gates of the corpus stream): "
+                    "first, for the 42 + 58 hand-written steps, rsmi_to_graph must return per side exactly the mapped atoms written there (read off the "
+                    "text by the harness, so that a reader losing an atom cannot push the reaction out of the precondition); then "
+                    "42 hand-written steps with wildcard atoms `*` (neutral / charged / with hydrogens; bonded / unbonded on one side / on both) "
+                    "and bare neutral atoms x {identity, reversal} + 12 (all x 3) x {sparse renumbering, shuffle, re-rooting, wild_spectator: unchanged "
+                    "spectators from a pool of 27 wildcard / bare-atom templates, explicit-hydrogen spectators, open-shell spectators, wildcardize: "
+                    "1-2 mapped non-aromatic atoms become `*` on both sides (atoms unbonded on one side preferred; hydrogens dropped one time in "
+                    "three), cut_wild}; radical steps x {wildcardize (30; all x 4), wild_spectator (15; all x 2)}; corpus x {wild_spectator 20, "
+                    "wildcardize 20, cut: the only bond of a mapped terminal atom cut on one side homo- / heterolytically 20, cut_wild: the same with "
+                    "that atom a wildcard 30 (thorough 250 each), cut_wild+wild_spectator+reverse 12 (120)}; 20+25 of them with "
+                    "its_to_rsmi(explicit_hydrogen=True) and with (sanitize=False), 20+25 through a random one of the 18 routes, a shuffled repeat of "
+                    "15+25; graph level (model its.construct / its.decompose, half with a random point of the option grid): ALL pairs on n<=2 shared "
+                    "atoms with elements {*, C} and default labels, 150 sampled (thorough all 5832) for n=3, 250 (4000) random pairs with elements "
+                    "from {*, C, N, O, H, Cl, He}, 75% default hcount / charge, 1-2 atoms isolated / attached on one side; stream (v) on the 42 steps "
+                    "+ 60 (1000) variants and on 250 (all) of the pairs x a random one of 4 writer routes. "
                     "stream `explicit-its` (last): 6 tiny reactions + 10 (150) corpus + 8 (58) hand-written steps.")
     ctx.nontrivial_rule = "distinct (G,H) as encoded graphs, with >=3 atoms and >=1 bond whose order differs between the sides"
     build_and_audit(ctx, ["SynKitProofs.Props.C01"], "SynKitProofs/Audit/C01.lean", THEOREMS)
@@ -1747,10 +2140,17 @@ def run(ctx):
     radical_cases = None
     if not ctx.violations:
         radical_cases = radical_stream(ctx)
+    pad_cases = pad_pairs = None
+    if not ctx.violations:
+        pad_cases, pad_pairs = padding_stream(ctx)
     route_cases = None
     if not ctx.violations:
         route_cases = route_stream(ctx)
     ok_before = not ctx.violations
+    if not ctx.violations:
+        rsmi_graph_cases(ctx, pad_cases or [], "rsmi-graphs:padding")
+    if not ctx.violations:
+        rsmi_graph_cases(ctx, pad_pairs or [], "rsmi-graphs:padding-pairs")
     if not ctx.violations:
         rsmi_graph_stream(ctx, radical_cases)
     if not ctx.violations:
@@ -1780,6 +2180,9 @@ def replay(ctx, case):
                 rsmi_graph_cases(ctx, [(r, p, {k: c.get(k) for k in ("src", "idx", "variant", "rsmi", "route") if k in c})], "rsmi-graphs:replay")
         else:
             rsmi_graph_cases(ctx, [(graphio.to_nx(c["G"]), graphio.to_nx(c["H"]), c.get("meta"))], "rsmi-graphs:replay")
+        return
+    if c.get("gate") == "reader":
+        reader_cases(ctx, [c], "replay")
         return
     if "rsmi" in c:
         reaction_cases(ctx, [(c.get("src"), c.get("idx"), c.get("variant"), c["rsmi"])], "replay", opts=c.get("opts"), route=c.get("route"))
